@@ -96,6 +96,24 @@ pub mod nom {
                 }
             }
         }
+        impl<'a, A, B, C, D, OA, OB, OC, OD, E> TupleSpec<'a, (OA, OB, OC, OD), E> for (A, B, C, D)
+            where A: Fn(&'a [u8]) -> IResult<&'a [u8], OA, E>, B: Fn(&'a [u8]) -> IResult<&'a [u8], OB, E>, C: Fn(&'a [u8]) -> IResult<&'a [u8], OC, E>, D: Fn(&'a [u8]) -> IResult<&'a [u8], OD, E>
+        {
+            open spec fn tp_req(self) -> bool {
+                (forall|i: &'a [u8]| #[trigger] self.0.requires((i,))) && (forall|i: &'a [u8]| #[trigger] self.1.requires((i,)))
+                    && (forall|i: &'a [u8]| #[trigger] self.2.requires((i,))) && (forall|i: &'a [u8]| #[trigger] self.3.requires((i,)))
+            }
+            open spec fn tp_post(self, i: &'a [u8], r: IResult<&'a [u8], (OA, OB, OC, OD), E>) -> bool {
+                match r {
+                    Ok((rest, (a, b, c, d))) => exists|i1: &'a [u8], i2: &'a [u8], i3: &'a [u8]| #![auto]
+                        self.0.ensures((i,), Ok((i1, a))) && self.1.ensures((i1,), Ok((i2, b))) && self.2.ensures((i2,), Ok((i3, c))) && self.3.ensures((i3,), Ok((rest, d))),
+                    Err(e) => self.0.ensures((i,), Err(e))
+                        || (exists|i1: &'a [u8], a: OA| #![auto] self.0.ensures((i,), Ok((i1, a))) && self.1.ensures((i1,), Err(e)))
+                        || (exists|i1: &'a [u8], a: OA, i2: &'a [u8], b: OB| #![auto] self.0.ensures((i,), Ok((i1, a))) && self.1.ensures((i1,), Ok((i2, b))) && self.2.ensures((i2,), Err(e)))
+                        || (exists|i1: &'a [u8], a: OA, i2: &'a [u8], b: OB, i3: &'a [u8], c: OC| #![auto] self.0.ensures((i,), Ok((i1, a))) && self.1.ensures((i1,), Ok((i2, b))) && self.2.ensures((i2,), Ok((i3, c))) && self.3.ensures((i3,), Err(e))),
+                }
+            }
+        }
         #[verifier::external_body]
         pub fn tuple<'a, O, E, L: TupleSpec<'a, O, E>>(l: L) -> (f: impl Fn(&'a [u8]) -> IResult<&'a [u8], O, E>)
             requires
@@ -113,6 +131,24 @@ pub mod nom {
             use vstd::prelude::*;
             use super::super::*;
             use crate::spec::*;
+            /// little-endian u32, streaming: 4 bytes or Incomplete(4 - len) (ASSUMED; nom 7.1.3)
+            #[verifier::external_body]
+            pub fn le_u32<E>(i: &[u8]) -> (r: IResult<&[u8], u32, E>)
+                ensures
+                    i@.len() >= 4 ==> (match r { Ok((rest, v)) => rest@ == i@.subrange(4, i@.len() as int) && v as int == (i@[0] as int) + 256 * (i@[1] as int) + 65536 * (i@[2] as int) + 16777216 * (i@[3] as int), Err(_) => false }),
+                    i@.len() < 4 ==> (match r { Err(Err::Incomplete(NeededE::Size(k))) => k@ == 4 - i@.len(), _ => false }),
+            {
+                unimplemented!()
+            }
+            /// one byte, streaming (ASSUMED; nom 7.1.3)
+            #[verifier::external_body]
+            pub fn be_u8<E>(i: &[u8]) -> (r: IResult<&[u8], u8, E>)
+                ensures
+                    i@.len() >= 1 ==> (match r { Ok((rest, v)) => rest@ == i@.subrange(1, i@.len() as int) && v == i@[0], Err(_) => false }),
+                    i@.len() < 1 ==> (match r { Err(Err::Incomplete(NeededE::Size(k))) => k@ == 1, _ => false }),
+            {
+                unimplemented!()
+            }
             /// big-endian u16, streaming: 2 bytes or Incomplete(2 - len) (ASSUMED; nom 7.1.3)
             #[verifier::external_body]
             pub fn be_u16<E>(i: &[u8]) -> (r: IResult<&[u8], u16, E>)
@@ -210,14 +246,30 @@ pub mod spec {
         }
     }
 
+    /// `i` starts with the first min(|i|, |t|) bytes of `t` (elementwise, solver friendly)
+    pub open spec fn agrees(t: Seq<u8>, i: Seq<u8>) -> bool {
+        forall|j: int| 0 <= j < t.len() && j < i.len() ==> #[trigger] i[j] == t[j]
+    }
+
     pub open spec fn spec_tag<E>(t: Seq<u8>, i: Seq<u8>, r: IResult<&[u8], &[u8], E>) -> bool {
         if i.len() >= t.len() && i.subrange(0, t.len() as int) == t {
-            match r { Ok((rest, out)) => rest@ == i.subrange(t.len() as int, i.len() as int) && out@ == t, Err(_) => false }
-        } else if i.len() < t.len() && i == t.subrange(0, i.len() as int) {
+            match r { Ok((rest, out)) => rest@ == i.subrange(t.len() as int, i.len() as int) && out@.len() == t.len(), Err(_) => false }
+        } else if i.len() < t.len() && agrees(t, i) {
             match r { Err(Err::Incomplete(NeededE::Size(n))) => n@ == t.len() - i.len(), _ => false }
         } else {
             match r { Err(Err::Error(_)) => true, _ => false }
         }
+    }
+
+    /// elementwise agreement on a full-length prefix is equality of that prefix
+    pub broadcast proof fn lemma_prefix_eq(t: Seq<u8>, i: Seq<u8>)
+        requires
+            i.len() >= t.len(),
+            agrees(t, i),
+        ensures
+            #[trigger] i.subrange(0, t.len() as int) == t,
+    {
+        assert(i.subrange(0, t.len() as int) =~= t);
     }
 
     /// the bytes of the one string literal the crate passes to `tag` (ASSUMED: ASCII)
